@@ -104,6 +104,11 @@ func (u *udpHandler) Handle() error {
 		}
 		pkg := make([]byte, n)
 		copy(pkg, buffer[0:n])
+		// a datagram carries one package: drop it unless it is a complete one (at least the length prefix)
+		if _, status := u.server.protocol.ParsePackage(pkg); status != PackageFull {
+			TLOG.Errorf("drop incomplete udp package from %v, len: %d", udpAddr, n)
+			continue
+		}
 		u.handleUDPAddr(udpAddr, pkg)
 	}
 }
